@@ -443,6 +443,22 @@ func c20c(c *Ctx) {
 			}
 			n++
 			key := c.term(fn, mu.Key)
+			// what is stored is what was gathered: the read-out of the builder the value tokens
+			// were written to (or the join of the gathered parts), not a processed copy of it
+			{
+				okVal := false
+				if call, ok := mu.Value.(*ssa.Call); ok {
+					switch calleeName(call) {
+					case "(*strings.Builder).String":
+						okVal = true
+					case "strings.Join":
+						if sep, isC := strConst(call.Call.Args[1]); isC && sep == " " {
+							okVal = true
+						}
+					}
+				}
+				c.Check(okVal, name+"/stored-value-is-gathered-text", c.W.Pos(mu.Pos()), "the constant's value is the gathered text itself", "the value stored for a constant is "+pretty(c.term(fn, mu.Value))+", not the text gathered from its tokens: using the constant would differ from writing its value")
+			}
 			guard := hasLit(c.mustLits(fn, mu.Block()), "-$0.constants["+key+"]#1")
 			c.Check(guard, name+"/redefinition/check-before-insert", c.W.Pos(mu.Pos()), "constant stored only after the lookup of the same name failed", "constant "+pretty(key)+" stored without a failed lookup of the same name")
 			errOK := false
